@@ -317,6 +317,25 @@ def gen_rf(ctx):
     return cases
 
 
+def gen_rfctr(ctx):
+    """Frame-counter sweeps of secured command and data frames through the parsed-packet paths (Dot15d4FCS and
+    rf4ce_only=True): the ciphertext is re-dissected by scapy as if it were plaintext layers, so the round trip must
+    hold whatever the first ciphertext bytes happen to be (they change with every counter)."""
+    rng, out = ctx.rng, []
+    n = 5000 if ctx.thorough else 400
+    k0 = bytes(range(16)).hex()
+    shapes = [(0x2e, "", "0700" + b"ping".hex()),                 # command: PING request
+              (0x2e, "", "06" + "11" * 5),                         # command: key seed (truncated)
+              (0x2d, "c03412", b"hello world".hex()),              # data frame, profile 0xc0
+              (0x2f, "013412", "01" + "40")]                       # vendor frame, MSO user control pressed
+    for mode in ("nwk", "fcs"):
+        for fctl, hdr, pl in shapes:
+            for key, cnt in ([(k0, n)] if not ctx.thorough else [(k0, n), (rb(rng, 16).hex(), 1000)]):
+                out.append({"mode": mode, "fctl": fctl, "hdr": hdr, "payload": pl, "mic": None, "key": key,
+                            "src": "8877665544332211", "dst": "00ffeeddccbbaa99", "n": cnt})
+    return out
+
+
 def gen_un(ctx):
     rng, cases = ctx.rng, []
     ctrs = [0, 1, 0xffffffff, 0x01020304, 0x80000000, 0x7fffffff, 0xfffffffe, 0x80000001, 0xdeadbeef, 0xc0000000]
@@ -570,10 +589,15 @@ def run(ctx):
     lw = corpus["lw"] + gen_lw(ctx)
     rf = corpus["rf"] + gen_rf(ctx)
     un = corpus["un"] + gen_un(ctx)
-    res = C.run_impl("C18.py", {"lw": lw, "rf": rf, "un": un, "misc": True})
+    rfctr = gen_rfctr(ctx)
+    # a sample of the swept counters also goes through the Coq correspondence
+    for c in rfctr:
+        for fc in ctx.rng.sample(range(c["n"]), 3 if not ctx.thorough else 10):
+            rf.append({k: v for k, v in dict(c, fc=fc).items() if k != "n"})
+    res = C.run_impl("C18.py", {"lw": lw, "rf": rf, "un": un, "rfctr": rfctr, "misc": True})
     ctx.log("impl: %d lorawan, %d rf4ce, %d unifying cases" % (len(lw), len(rf), len(un)))
-    ctx.cov["evaluations"] = len(lw) + len(rf) + len(un)
-    ctx.cov["traces_validated_against_impl"] = ctx.cov["evaluations"]
+    ctx.cov["evaluations"] = len(lw) + len(rf) + len(un) + sum(c["n"] for c in rfctr)
+    ctx.cov["traces_validated_against_impl"] = len(lw) + len(rf) + len(un)
 
     # ---- oracle ---------------------------------------------------------------
     st = {"roundtrip": 0, "missing": 0, "wrongkey": 0, "flips": 0}
@@ -583,6 +607,13 @@ def run(ctx):
         oracle_rf(ctx, c, r, st)
     for c, r in zip(un, res["un"]):
         oracle_un(ctx, c, r, st)
+    st["counter_sweep_frames"] = 0
+    for c, r in zip(rfctr, res.get("rfctr", [])):
+        st["counter_sweep_frames"] += r["n"]
+        for dt in r["detail"][:2]:
+            ctx.violation("RF4CE decrypt(encrypt(frame)) of an untampered frame fails for some frame counters (%d of %d swept)"
+                          % (len(r["bad"]), r["n"]), {"proto": "rf", "case": {k: v for k, v in dict(c, fc=dt["fc"]).items() if k != "n"}},
+                          expected="(frame, True)", observed=dt["observed"])
     if res.get("misc", {}).get("rf4ce_decryptor_no_key") != "MissingCryptographicMaterial":
         ctx.violation("RF4CEDecryptor without keys did not raise MissingCryptographicMaterial", {"proto": "misc"},
                       expected="MissingCryptographicMaterial", observed=res.get("misc"))
@@ -686,7 +717,7 @@ def run(ctx):
                            "lw_downlink": sum(1 for c in data if c["mtype"] in (3, 5)), "lw_missing_key": st["missing"],
                            "lw_struct_error": sum(1 for c in data if 9 + len(c["fopts"]) // 2 + len(c["payload"]) // 2 > 255),
                            "lw_ecb_misaligned": sum(1 for c in lw if c["kind"] == "join" and (len(c["body"]) // 2 + 4) % 16),
-                           "rf_noaddr": sum(1 for c in rf if c.get("expect") in ("noaddr", "dec-noaddr")), "rf_addressing_grid": sum(1 for c in rf if "smode" in c), "rf_no_destination_mode": sum(1 for c in rf if c.get("expect") == "nodest"), "rf_security_flag_clear_on_decrypt": sum(1 for c in rf if c.get("expect") == "dec-sec0"), "rf_no_header": len(t_nh),
+                           "rf_noaddr": sum(1 for c in rf if c.get("expect") in ("noaddr", "dec-noaddr")), "rf_counter_sweep_frames": sum(c["n"] for c in rfctr), "rf_addressing_grid": sum(1 for c in rf if "smode" in c), "rf_no_destination_mode": sum(1 for c in rf if c.get("expect") == "nodest"), "rf_security_flag_clear_on_decrypt": sum(1 for c in rf if c.get("expect") == "dec-sec0"), "rf_no_header": len(t_nh),
                            "un_missing_payload": sum(1 for c in un if c["ft"] != 0xD3)},
         "uncovered_branches": ["un_crypt: IndexError (hid_data shorter than 7 bytes: scapy returns the raw short value)",
                                "rf_parse / dissect: None (frames shorter than their headers are outside the model)"],
